@@ -146,6 +146,8 @@ void hist(actor *a, const char *what, long v1, long v2, long v3)
 
 static char g_envA[256], g_envB[256];
 extern void env_probe(const char *tag, const char *setting);
+extern void mp_line(const char *line);
+extern void mp_run(void);
 #include "ops.h"
 
 /* ------------------------------------------------------------------ */
@@ -412,6 +414,8 @@ static void parse_case(char *text)
         } else if (!strncmp(line, "main", 4)) {
             if (opstr)
                 parse_ops(&G.main_a, opstr);
+        } else if (!strncmp(line, "mp ", 3)) {
+            mp_line(line);
         } else if (!strncmp(line, "expect", 6) || !strncmp(line, "note", 4)) {
             /* for the offline oracle / humans */
         } else {
